@@ -460,6 +460,32 @@ PROPS = {
         "trusted_base": ["modelled, not verified: the block container format (payload, type byte, masked CRC) and which blocks are read at open "
                          "versus on demand; footer handles, block contents, value-log and manifest formats are swept, not modelled"],
     },
+    "C18": {
+        "lean": ["Skv.Props.C18"],
+        "audit": "Skv/Audit/C18.lean",
+        "streams": [
+            {"name": "bptree", "harness": "c18", "driver": "c18", "quick_cases": 80, "thorough_cases": 1500,
+             "nontrivial": lambda lines: sum(1 for l in lines if l.startswith("del")) >= 5 and
+                                          sum(1 for l in lines if l.startswith("reopen")) >= 2 and
+                                          any(l.startswith("ins") and int(l.split()[1].split(":")[1]) > 500 for l in lines),
+             "timeout": 3000},
+        ],
+        "rule": "operation sequences (30-260 quick, up to 600 thorough: insert / overwrite / delete / get / bounded range / full forward "
+                "and backward iterator scan) over 8-220 skewed keys of 2, 4-44 and 600-4200 bytes with values of 0, 1-200 and 3000-12000 "
+                "bytes, under the bytewise and the version (timestamp) key order, on the real disk B+tree; the tree is closed and reopened "
+                "at arbitrary points and audited by a walk over the whole file (total pages = header + nodes + overflow pages + trunk "
+                "pages + free pages, no page owned twice, free-page count, leaf chain = leaves in tree order, key order and separator "
+                "bounds in every node); every answer is compared with the Lean model tree (splits under its own policy) and with the "
+                "ordered-map specification; non-trivial = deletes, reopens and multi-page keys in one case",
+        "assumptions": [
+            "keys of one id have one length per case (two byte strings of the same id never coexist); in version order the sequence/kind "
+            "bytes of the encoded key are constant (keys that compare equal are byte-identical)",
+        ],
+        "trusted_base": ["modelled, not verified: the node-level algorithm (routing, insertion with splits, leaf deletion, leaf rebalancing, "
+                         "overflow slots); byte-size split/merge decisions, internal-node rebalancing, page codecs and the free-list "
+                         "allocator are exercised and audited, not modelled",
+                         "the audit walk hook (src/bplustree/tree.rs verif_audit) reads through the same node readers it checks"],
+    },
     "C15": {
         "lean": ["Skv.Props.C15"],
         "audit": "Skv/Audit/C15.lean",
